@@ -175,7 +175,15 @@ def run(ctx):
                 cur_ref = nxt_ref
                 ctx.probes["reuse_own_output_checked"] += 1
             d3, p3, s3 = lib(ctx, W, S, "-again")
-            got3 = apply(ctx, op, s3, FLAGS[0], "Operator.apply (re-used operator, first state again)", [])
+            # the operator first answers an applicability query (or is refused) on the OTHER state; the flags of the call
+            # that follows are drawn, so validation may be skipped
+            try:
+                op.is_applicable(s2)
+                if ops.chance(1, 2):
+                    op.apply(s2)
+            except Exception:
+                pass
+            got3 = apply(ctx, op, s3, FLAGS[ops.draw(4)], "Operator.apply (re-used operator, first state again)", [])
             compare(ctx, got3, want, "Operator.apply (re-used operator, first state again)", "", W, S, call)
             ctx.probes["reuse_checked"] += 1
     ctx.probes[f"distinct_group_orders_{min(len(orders), 4)}"] += 1
